@@ -25,20 +25,40 @@ type c17Case struct {
 }
 
 func genC17(t *rapid.T) *c17Case {
-	c := &c17Case{Kind: rapid.SampledFrom([]string{"encode", "encode", "encode", "libwebp", "vp8gen", "trailing", "reorder"}).Draw(t, "kind")}
+	c := &c17Case{Kind: rapid.SampledFrom([]string{"encode", "encode", "encode", "libwebp", "vp8gen", "trailing", "reorder", "bigdims"}).Draw(t, "kind")}
 	max := 20
 	if tierThorough() {
 		max = 48
 	}
 	switch c.Kind {
-	case "encode", "trailing", "reorder":
+	case "encode", "trailing", "reorder", "bigdims":
 		im := gen.DrawImg(t, gen.ImgCfg{MaxSide: max, Kinds: []string{"nrgba"}, Places: []string{"tight"}})
+		if c.Kind == "bigdims" {
+			// dimensions whose header fields use their upper bits (>= 256, up to the format's 16383): a cut inside the
+			// 14-bit / 24-bit size fields must not yield a smaller picture. Compressible content keeps the file short.
+			long := rapid.SampledFrom([]int{256, 257, 300, 511, 512, 700, 1023, 1024, 1025, 2049, 4095, 4100, 8193, 16383}).Draw(t, "long")
+			short := rapid.IntRange(1, 40).Draw(t, "short")
+			if long <= 700 && rapid.IntRange(0, 3).Draw(t, "bothBig") == 0 {
+				short = rapid.IntRange(256, 420).Draw(t, "short2")
+			}
+			w, h := long, short
+			if rapid.Bool().Draw(t, "tall") {
+				w, h = short, long
+			}
+			content := rapid.SampledFrom([]string{"flat", "pal2", "gradient", "bands", "letterbox", "sparse"}).Draw(t, "bigContent")
+			alpha := rapid.SampledFrom([]string{"opaque", "opaque", "binary", "semi-flat", "late"}).Draw(t, "bigAlpha")
+			im = &gen.Img{W: w, H: h, Kind: "nrgba", Place: "tight", Content: content, Alpha: alpha}
+			im.Pix = gen.RenderContent(w, h, content, alpha, rapid.Uint64().Draw(t, "bigSeed"))
+		}
 		var o *gen.Opts
 		if rapid.IntRange(0, 2).Draw(t, "lossless") == 0 {
 			o = gen.DrawLosslessOpts(t)
 		} else {
 			o = gen.DrawLossyOpts(t, false)
 			o.Pass = -1
+		}
+		if c.Kind == "bigdims" && o.Method > 3 {
+			o.Method = 3
 		}
 		if rapid.Bool().Draw(t, "meta") {
 			o.DrawMeta(t, 24)
@@ -164,7 +184,37 @@ func checkC17(c *c17Case, o *core.Obs) error {
 		}
 	}
 	okPrefixes, errPrefixes := 0, 0
+	// Every prefix is enumerated. Only when (file length x picture size) is large - the big-dimension class - the
+	// prefixes are thinned out to: the first 160 bytes (all header fields), 3 bytes either side of every chunk
+	// boundary, the last 40 bytes and 96 evenly spaced cuts.
+	sparse := map[int]bool(nil)
+	if px := fView.Bounds.Dx() * fView.Bounds.Dy(); int64(px)*int64(len(full)) > 60e6 {
+		sparse = map[int]bool{}
+		for n := 0; n < 160; n++ {
+			sparse[n] = true
+		}
+		for n := len(full) - 40; n < len(full); n++ {
+			sparse[n] = true
+		}
+		for k := 0; k < 96; k++ {
+			sparse[int(int64(len(full))*int64(k)/96)] = true
+		}
+		if rf != nil {
+			for _, ch := range rf.Chunks {
+				for d := -3; d <= 11; d++ {
+					sparse[ch.Off+d] = true
+					sparse[ch.Off+len(ch.Data)+d] = true
+				}
+			}
+		}
+		o.Label("prefixes=thinned")
+	}
+	checked := 0
 	for n := 0; n < len(full); n++ {
+		if sparse != nil && !sparse[n] {
+			continue
+		}
+		checked++
 		pre := full[:n:n]
 		img, err := webp.Decode(bytes.NewReader(pre))
 		if err == nil {
@@ -212,7 +262,7 @@ func checkC17(c *c17Case, o *core.Obs) error {
 			}
 		}
 	}
-	core.AddExtra("prefixes_checked", int64(len(full)))
+	core.AddExtra("prefixes_checked", int64(checked))
 	core.AddExtra("prefixes_decoding_ok", int64(okPrefixes))
 	o.Label("kind=" + c.Kind)
 	o.Label("layout=" + layout)
